@@ -17,11 +17,11 @@ META = {
     "functions": ["BaseSubProjectTask.set_all_attributes_from_json", "BaseSubProjectTask.set_work_amount_progress_of_unit_step_time", "BaseProject.read_simple_json/write_simple_json",
                   "BaseProject.remove_absence_time_list"] + SIM_FUNCTIONS,
     "stubs": STUB_NOTES + ["json/open in pDESy.model.base_project: in-memory store with JSON normalisation (replays use real files)"],
-    "assumptions": profiles.ASSUMPTIONS + ["the absence list given to simulate() has no duplicate entries", "unit pairs with integer or dyadic ratio in the solver claim (1,2,3,4 minutes; 30 s); the ratio arithmetic itself is concrete on every path"],
+    "assumptions": profiles.ASSUMPTIONS + ["the absence list given to simulate() has no duplicate entries", "unit pairs with integer or dyadic ratio in the solver claim (1,2,3,4 minutes; 30 s; 12/24/36 h; 250/500/1500 ms); the ratio arithmetic itself is concrete on every path"],
     "bounds": {"quick": {"sub-project work": "1..4", "absence steps": "<= 2 in 0..5", "unit pairs": 8, "predecessor work": "0..2"}, "thorough": {"sub-project work": "1..6", "unit pairs": 12}},
     "outside": profiles.OUTSIDE + ["D = 0 (a zero-length sub-project still shows one WORKING step)", "non-dyadic non-integer unit ratios"],
 }
-REQUIRED_COVERS = {"any": ["absence-removed", "absence-kept", "ratio:gt1", "ratio:lt1", "refused", "waits-for-predecessor", "configured-twice", "sub-project-backward", "file-rewritten", "parent-through-json"]}
+REQUIRED_COVERS = {"any": ["absence-removed", "absence-kept", "ratio:gt1", "ratio:lt1", "refused", "waits-for-predecessor", "configured-twice", "sub-project-backward", "file-rewritten", "parent-through-json", "unit-with-sub-second-part"]}
 
 
 def _sub_spec(p):
@@ -38,8 +38,11 @@ def configure(p, ctx):
     from pDESy.model.base_organization import BaseOrganization
 
     install_hashes()
-    sub_unit = datetime.timedelta(seconds=p["sub_s"])
-    par_unit = datetime.timedelta(seconds=p["par_s"])
+    # units are given in whole seconds (sub_s / par_s) or, for units with a sub-second part, in milliseconds (sub_ms / par_ms)
+    sub_ms = p["sub_ms"] if "sub_ms" in p else p["sub_s"] * 1000
+    par_ms = p["par_ms"] if "par_ms" in p else p["par_s"] * 1000
+    sub_unit = datetime.timedelta(milliseconds=sub_ms)
+    par_unit = datetime.timedelta(milliseconds=par_ms)
     remove = bool(p["remove"])
     with Sim(ctx), JsonIO(ctx) as io:
         S = build(_sub_spec(p), p, ctx.symbolic)
@@ -151,8 +154,8 @@ def configure(p, ctx):
             return
         log = [int(s) for s in st.state_record_list]
         widx = [i for i, s in enumerate(log) if s == WORKING]
-        sub_us = int(p["sub_s"]) * 1000000
-        par_us = int(p["par_s"]) * 1000000
+        sub_us = int(sub_ms) * 1000
+        par_us = int(par_ms) * 1000
         Dc = ctx.c(D)
         expect = -((-Dc * sub_us) // par_us)  # ceil in integer arithmetic on microseconds
         if Dc >= 1:
@@ -182,7 +185,9 @@ def configure(p, ctx):
             ctx.cover("ratio:gt1")
         if sub_us < par_us:
             ctx.cover("ratio:lt1")
-        ctx.sig = (tuple(log), tuple(int(s) for s in pred.state_record_list), Dc, p["sub_s"], p["par_s"], remove)
+        if sub_ms % 1000:
+            ctx.cover("unit-with-sub-second-part")
+        ctx.sig = (tuple(log), tuple(int(s) for s in pred.state_record_list), Dc, sub_ms, par_ms, remove)
         ctx.nontrivial = len(widx) >= 1
 
 
@@ -202,6 +207,13 @@ def obligations(tier, seed):
                             "cube": {"sub_s": ss, "par_s": ps, "remove": remove, "kind": kind, "stage": "success", "twice": twice},
                             "params": [["sw", 1, 6 if thorough else 4], ["sa0", 0, 6], ["sa1", 0, 6], ["pw", 0, 2]], "pre": "sa0 < sa1",
                             "timeout": 600 if thorough else 150, "engine": "zsym"})
+    # units with a sub-second part (ratios 3/2, 1/2, 1/4, 3): the unit must survive the saved file exactly
+    for (sm, pm) in ((1500, 1000), (500, 1000), (250, 1000), (1500, 500)):
+        for remove in (0, 1):
+            obs.append({"name": "sub/%dms-in-%dms/remove=%d" % (sm, pm, remove), "harness": "configure",
+                        "cube": {"sub_ms": sm, "par_ms": pm, "remove": remove, "kind": 0, "stage": "success"},
+                        "params": [["sw", 1, 6 if thorough else 4], ["sa0", 0, 6], ["sa1", 0, 6], ["pw", 0, 1]], "pre": "sa0 < sa1",
+                        "timeout": 600 if thorough else 150, "engine": "zsym"})
     for (ss, ps) in ((60, 120), (129600, 43200), (86400, 86400)):
         obs.append({"name": "sub/%ds-in-%ds/parent-through-json" % (ss, ps), "harness": "configure",
                     "cube": {"sub_s": ss, "par_s": ps, "remove": 1, "kind": 0, "stage": "success", "via_json": True},
